@@ -110,6 +110,21 @@ def main():
                 evlog.emit("lockwait", lock=os.path.basename(self.lock_file), attempts=n)
     filelock.SoftFileLock._acquire = _acquire
     need = int(os.environ.get("VP_LASSO_ATTEMPTS", "200"))
+    # the asyncio lock wrapper (PydraFileLock) waits with `asyncio.sleep` between attempts: count those
+    # waits too, so a waiter that never even attempts to take a dead holder's lock is seen as well
+    import asyncio as _asyncio
+    import pydra.engine.job as _jobmod
+
+    class _AsyncioProxy:
+        def __getattr__(self, name):
+            return getattr(_asyncio, name)
+
+        async def sleep(self, delay, *a, **k):
+            n = fails["<async-wait>"] = fails.get("<async-wait>", 0) + 1
+            evlog.emit("lockwait", lock="<async-wait>", attempts=n)
+            return await _asyncio.sleep(delay, *a, **k)
+    _jobmod.asyncio = _AsyncioProxy()
+    need_async = int(os.environ.get("VP_LASSO_ASYNC_WAITS", "9"))
     skip = len(evlog.read(log))     # events of earlier processes (the victim) do not count
 
     def lasso_watch():
@@ -123,7 +138,12 @@ def main():
                 if e.get("ev") == "lockwait" and e.get("pid") != 0:
                     att[(e["lock"], e["pid"])] = max(att.get((e["lock"], e["pid"]), 0), e["attempts"])
             for (lk, pid), n in att.items():
-                if lk in dead and n >= need:
+                if lk == "<async-wait>" and n >= need_async:
+                    lk = sorted(dead)[0]
+                    n = f"{n} async waits"
+                elif lk == "<async-wait>":
+                    continue
+                if lk in dead and (isinstance(n, str) or n >= need):
                     res["lasso"] = {"lock": dead[lk], "failed_attempts": n, "waiting_pid": pid,
                                     "waited_s": round(time.time() - t0, 1)}
                     with open(outp, "w") as f:
